@@ -59,12 +59,13 @@ type OpCtx struct {
 	HookFailAt int // the HookFailAt-th hook call of this op fails (0: never)
 	HookCalls  int
 	HookFired  bool
-	Steps      int   // yield steps executed inside the op
-	Limit      int   // forced switch after this many steps (0: none)
-	RecStores  bool  // record offsets of store-flagged sites
-	StoreOffs  []int // offsets (in steps) at which store-flagged sites ran
-	SyncOffs   []int // offsets at which sync-flagged sites ran
-	Sites      []int // if RecSites: site sequence (bounded)
+	Steps      int    // yield steps executed inside the op
+	Limit      int    // forced switch after this many steps (0: none)
+	RecStores  bool   // record offsets of store-flagged sites
+	StoreOffs  []int  // offsets (in steps) at which store-flagged sites ran
+	SyncOffs   []int  // offsets at which sync-flagged sites ran
+	ChildPanic string // a goroutine the library spawned during this op panicked (recovered by the simulator)
+	Sites      []int  // if RecSites: site sequence (bounded)
 	RecSites   bool
 }
 
@@ -77,9 +78,10 @@ type task struct {
 	done     bool
 	started  bool
 	blocked  bool
-	parked   int // site at which the task is parked (-1: not started)
-	since    int // steps since it last got the processor
-	finished int // number of ops finished
+	parked   int    // site at which the task is parked (-1: not started)
+	since    int    // steps since it last got the processor
+	finished int    // number of ops finished
+	parentOp *OpCtx // spawned children: the op of the task that spawned them
 }
 
 // SwitchEvent is one entry of the run's event log.
@@ -105,7 +107,7 @@ type Stats struct {
 	Hash            uint64
 }
 
-const maxTasks = 8
+const maxTasks = 40
 const maxLog = 2048
 
 var (
@@ -127,6 +129,8 @@ var (
 	abortFn  func(reason string)
 	hardCap  uint64
 	capHit   bool
+	liveKids int // goroutines spawned by the library itself that have not finished
+	planned  int // tasks of the plan (the rest of tasks[:ntasks] are spawned children)
 )
 
 // RegisterSites is called from the generated init functions of the
@@ -171,6 +175,8 @@ func Reset() {
 	streak = 0
 	hardCap = 0
 	capHit = false
+	liveKids = 0
+	planned = 0
 }
 
 //go:norace
@@ -253,6 +259,7 @@ func StartRun(k int, first int, q int, points []Point) {
 		panic("verifsim: too many tasks")
 	}
 	ntasks = k
+	planned = k
 	quantum = q
 	for i := 0; i < k; i++ {
 		tasks[i] = task{id: i, opIdx: -1, parked: -1}
@@ -397,6 +404,11 @@ func Yield(site int) {
 		}
 		panic("verifsim: step cap exceeded")
 	}
+	if mode == ModeCount && liveKids > 0 {
+		// the library has goroutines of its own running next to the single
+		// caller: only the global step count is kept while they live
+		return
+	}
 	op := t.op
 	if op == nil {
 		return
@@ -492,4 +504,170 @@ func Log() []SwitchEvent {
 	out := make([]SwitchEvent, nlog)
 	copy(out, log[:nlog])
 	return out
+}
+
+// ---- goroutines spawned by the library itself -----------------------------------
+//
+// The instrumenter rewrites `go func(...) {...}(...)` so that the parent calls
+// ChildSpawn before the go statement and the child calls ChildEnter first and
+// ChildExit (deferred) last; `go f(a, b)` becomes Go2(f, a, b). Under the
+// scheduler a child is one more task: it runs only when the processor is handed
+// to it (round-robin when the parent blocks in a modelled wait or finishes).
+
+// ChildSpawn reserves a task slot for a goroutine the running task is about to
+// start. Outside ModeSched it only counts the child as alive.
+//
+//go:norace
+func ChildSpawn() int {
+	liveKids++
+	if mode != ModeSched {
+		return -1
+	}
+	if ntasks >= maxTasks {
+		abort("too many goroutines spawned by the library")
+	}
+	id := ntasks
+	parent := &tasks[cur]
+	tasks[id] = task{id: id, opIdx: 0, parked: -1, parentOp: parent.op}
+	if parent.op != nil {
+		tasks[id].op = &OpCtx{Obj: parent.op.Obj, Limit: parent.op.Limit}
+	} else {
+		tasks[id].op = &OpCtx{Obj: -1}
+	}
+	ntasks++
+	return id
+}
+
+// ChildEnter parks the new goroutine until it is scheduled.
+//
+//go:norace
+func ChildEnter(id int) {
+	if id < 0 {
+		return
+	}
+	for cur != id {
+		runtime.Gosched()
+	}
+	tasks[id].started = true
+}
+
+// ChildExit ends a spawned goroutine.
+//
+//go:norace
+func ChildExit(id int) {
+	if mode != ModeOff {
+		// a panic in a goroutine the library started cannot be recovered by the
+		// caller and would take the whole process down; the simulator records it
+		// on the spawning op instead, as an outcome
+		if r := recover(); r != nil {
+			msg := "panic in a goroutine started by the library: " + panicText(r)
+			if id >= 0 && mode == ModeSched && tasks[id].parentOp != nil {
+				tasks[id].parentOp.ChildPanic = msg
+			} else if mainTask.op != nil {
+				mainTask.op.ChildPanic = msg
+			}
+		}
+	}
+	liveKids--
+	if id < 0 || mode != ModeSched {
+		return
+	}
+	t := &tasks[id]
+	t.done = true
+	to := nextRunnable(id, id+1)
+	if to < 0 {
+		cur = -1
+		return
+	}
+	logSwitch(t, to, -1, 2)
+	cur = to
+}
+
+// Go0..Go3 replace `go f(args)` for named functions and method values without
+// results: the arguments are evaluated by the parent, as the go statement does.
+func Go0(f func()) {
+	id := ChildSpawn()
+	go func() { ChildEnter(id); defer ChildExit(id); f() }()
+}
+
+func Go1[A any](f func(A), a A) {
+	id := ChildSpawn()
+	go func() { ChildEnter(id); defer ChildExit(id); f(a) }()
+}
+
+func Go2[A, B any](f func(A, B), a A, b B) {
+	id := ChildSpawn()
+	go func() { ChildEnter(id); defer ChildExit(id); f(a, b) }()
+}
+
+func Go3[A, B, C any](f func(A, B, C), a A, b B, c C) {
+	id := ChildSpawn()
+	go func() { ChildEnter(id); defer ChildExit(id); f(a, b, c) }()
+}
+
+//go:norace
+func schedActive() bool { return mode == ModeSched }
+
+type waitFlag struct{ done bool }
+
+//go:norace
+func (w *waitFlag) set() { w.done = true }
+
+//go:norace
+func (w *waitFlag) get() bool { return w.done }
+
+// WaitGroupWait models (*sync.WaitGroup).Wait: the waiting task hands the
+// processor on until the real Wait would return, then calls the real Wait
+// itself so that the race detector sees the Done -> Wait edges in the right
+// goroutine.
+func WaitGroupWait(wait func()) {
+	if !schedActive() {
+		wait()
+		return
+	}
+	w := &waitFlag{}
+	go func() {
+		wait()
+		w.set()
+	}()
+	for !w.get() {
+		waitYield()
+	}
+	wait()
+}
+
+// waitYield hands the processor to another runnable task if there is one;
+// otherwise it only lets the runtime schedule the helper goroutine.
+//
+//go:norace
+func waitYield() {
+	t := &tasks[cur]
+	to := nextRunnable(t.id, t.id+1)
+	if to < 0 {
+		runtime.Gosched()
+		return
+	}
+	t.blocked = true
+	stats.BlockedSpins++
+	switchFrom(t, to, -2, 3)
+}
+
+// WaitChildren is called by the harness after the planned tasks have finished:
+// goroutines the library started and nobody waited for are run to completion.
+//
+//go:norace
+func WaitChildren() {
+	for i := 0; i < 1000000 && liveKids > 0; i++ {
+		runtime.Gosched()
+	}
+}
+
+func panicText(r interface{}) string {
+	switch x := r.(type) {
+	case error:
+		return x.Error()
+	case string:
+		return x
+	}
+	return "non-string panic value"
 }
